@@ -140,3 +140,14 @@ CHECKS["C13"] = dict(
     assumptions=FAPP_ASSUME,
     units=[dict(pkg="app", test="TestVerifC13", shards_quick=16, shards_thorough=16, budget_quick=100, budget_thorough=1500)],
 )
+
+CHECKS["C06"] = dict(
+    level="model_checking",
+    engine="seqx+schedx",
+    rule="all event sequences up to the completed depth over {fire 7 alerts spread over a 4-route tree (group_by [a], '...', [a,b], inherited; one continue), resolve X1/Z1, reload, restart, advance 10s/30s/61s} on the real App; GET /alerts/groups compared with the hand-written partition after every event, every notification judged after a 100s tail; plus controlled-scheduler scenarios of concurrent group creation; states = distinct delivery traces / outcomes; transitions = events / synchronisation steps",
+    technique="bounded-exhaustive event-sequence exploration of the assembled implementation with a partition oracle computed independently of dispatch.Route; preemption-bounded schedule exploration of concurrent group creation / destruction",
+    level_text="Every notification carries alerts of exactly one route and one group-label assignment (group key and labels recomputed by hand from the config), lists every alert of that group firing since before the flush tick (never a delta), one key is never served by two live aggregation groups, GET /alerts/groups equals the partition, a re-created group waits a fresh group_wait; group keys are stable across reload and restart.",
+    level_note="7 alerts, 4 routes, labels a,b in {absent,1,2}. Group keys are compared as exact strings recomputed independently.",
+    assumptions=FAPP_ASSUME,
+    units=[dict(pkg="app", test="TestVerifC06App", shards_quick=16, shards_thorough=16, budget_quick=100, budget_thorough=1500)],
+)
